@@ -548,6 +548,95 @@ func rulesC18(c *Ctx) {
 			c.Check(ok, name+":moves-generation", f, nil, "%s increments the generation under the cache lock on every path (a per-key invalidation must also defeat an in-flight read of that key, which is not cached yet)", name)
 		}
 	})
+
+	c.Rule("R-C18-7", "a removal that deleted something reports a change (the report is what arms the notification): the result of featureSet.remove is a monotone flag set to true next to every delete and never assigned anything else", func() {
+		rm := c.Fn(pM, "featureSet", "remove")
+		g := rm.Graph()
+		featF := c.Field(pM, "featureSet", "features")
+		// the variable every return hands back
+		var flag types.Object
+		for _, r := range rm.Returns() {
+			if len(r.Results) == 1 {
+				if o := rm.ObjOf(r.Results[0]); o != nil {
+					c.Need(flag == nil || flag == o, "remove: one result variable")
+					flag = o
+				} else {
+					c.Fail("remove:returns-the-flag", rm, r, "a return does not hand back the change flag")
+				}
+			}
+		}
+		c.Need(flag != nil, "remove: result variable")
+		var trueWrites []int
+		okWrites := true
+		for _, w := range rm.writesToVar(rm.Body, flag, true) {
+			as, isAs := w.(*ast.AssignStmt)
+			if !isAs || len(as.Rhs) != 1 || len(as.Lhs) != 1 {
+				okWrites = false
+				c.Fail("remove:flag-write-not-constant", rm, w, "the change flag is assigned from something other than a constant: a later absent name can reset it after an earlier name was deleted, and no notification is armed")
+				continue
+			}
+			switch exprStr(as.Rhs[0]) {
+			case "true":
+				trueWrites = append(trueWrites, g.VertexOf(w))
+			case "false":
+				if as.Tok != token.DEFINE {
+					okWrites = false
+					c.Fail("remove:flag-reset", rm, w, "the change flag is reset to false after its initialisation")
+				}
+			default:
+				okWrites = false
+				c.Fail("remove:flag-write-not-constant", rm, w, "the change flag is assigned %s", exprStr(as.Rhs[0]))
+			}
+		}
+		if okWrites {
+			c.Ok("remove:flag-is-monotone", rm, nil, "the change flag starts false and is only ever set to the constant true (%d sites)", len(trueWrites))
+		}
+		n := 0
+		for _, call := range rm.AllCalls(rm.Body, false) {
+			if rm.BuiltinName(call) != "delete" || !rm.IsField(call.Args[0], featF) {
+				continue
+			}
+			n++
+			dv := g.VertexOf(call)
+			ok := false
+			for _, tv := range trueWrites {
+				if g.Dominates(tv, dv) {
+					ok = true
+				}
+			}
+			if !ok && len(trueWrites) > 0 {
+				ok, _ = g.MustPass(dv, g.Exits, func(v int) bool {
+					for _, tv := range trueWrites {
+						if v == tv {
+							return true
+						}
+					}
+					return false
+				})
+			}
+			// and the delete really removes something only when the key was present: otherwise "true" would be reported for a no-op
+			c.Check(ok, "remove:delete-sets-flag#"+itoa(n), rm, call, "every delete from the feature map is accompanied by flag = true on the same path")
+		}
+		c.Pin("deletes in featureSet.remove", n, 1)
+		// the callers hand the flag to changeAndNotify unchanged
+		can := c.FnObj(pM, "Server", "changeAndNotify")
+		canClient := c.FnObj(pM, "", "changeAndNotify") // the client's roots use a package-level generic twin
+		m := 0
+		for _, f := range c.funcsWithLits(pM) {
+			for _, call := range f.CallsIn(f.Body, rm.Obj, false) {
+				m++
+				r, isRet := f.ParentOf(call).(*ast.ReturnStmt)
+				inCb := false
+				if f.Lit != nil {
+					if pc, ok := f.Parent.ParentOf(f.Lit).(*ast.CallExpr); ok && (f.Parent.IsCallTo(pc, can) || f.Parent.IsCallTo(pc, canClient)) {
+						inCb = true
+					}
+				}
+				c.Check(isRet && len(r.Results) == 1 && inCb, "remove-caller:"+f.Name(), f, call, "the result of remove is returned as the change callback's verdict to changeAndNotify")
+			}
+		}
+		c.Pin("callers of featureSet.remove", m, 5)
+	})
 }
 
 func keysOfInt(m map[string]int) []string {
